@@ -141,7 +141,8 @@ def run(rep):
             [(tc.GT, 'new group'), (tc.GT, 'extend flag')] + tc.MATCHER_FUNCS + tc.PASS_FUNCS + tc.JOINER_FUNCS
     common.load_contracts()
     from contracts.sql import ACCESSOR_TOTAL
-    funcs = funcs + list(ACCESSOR_TOTAL) + [('sqlparse.sql.IdentifierList.get_identifiers', 'body')]
+    from contracts.filters import CASE_LAYOUT_CASES
+    funcs = funcs + list(ACCESSOR_TOTAL) + [('sqlparse.sql.IdentifierList.get_identifiers', 'body')] + list(CASE_LAYOUT_CASES)
     return generic.run_generic(
         rep, funcs, structural=[replay_options, validation_dominates, closer_sites_agree, rec],
         assumptions=['option values range over None | bool | int | float (finite, inf, nan) | str | other object; objects '
